@@ -357,8 +357,9 @@ func nativeReplay(prop string, g GroupSpec, replayPath string) string {
 	repl := map[string]string{
 		filepath.Join(repoDir, "zz_verifrt", "rt.go"): filepath.Join(verifDir, "rt", "rt.go"),
 	}
-	if _, err := os.Stat(filepath.Join(verifDir, "rt", "models.go")); err == nil {
-		repl[filepath.Join(repoDir, "zz_verifrt", "models.go")] = filepath.Join(verifDir, "rt", "models.go")
+	rtFiles, _ := filepath.Glob(filepath.Join(verifDir, "rt", "*.go"))
+	for _, f := range rtFiles {
+		repl[filepath.Join(repoDir, "zz_verifrt", filepath.Base(f))] = f
 	}
 	pkgName := ""
 	for _, f := range g.Files {
